@@ -61,6 +61,13 @@ class Gen:
                     out.append(n)
         return out
 
+    def binder(self, base):
+        """name for a construct-local binding: sometimes an already visible name (shadowing)"""
+        names = [n for sc in self.scopes for n, _ in sc if n not in ("log", "t", "std")]
+        if names and self.r.random() < 0.3:
+            return self.r.choice(names)
+        return self.fresh(base)
+
     def stat(self, k):
         self.stats[k] = self.stats.get(k, 0) + 1
 
@@ -133,6 +140,19 @@ class Gen:
         if t == FN_IB:
             return self.fn_expr([["p" + str(self.counter + 1), "int"]], BOOL, d)
         if t == U_IS:
+            if r.random() < 0.25 and d < self.max_depth:
+                # `it $ "init" (acc: int|string, x: int) -> int {..}`: int|string, the init when `it` is empty
+                self.stat("reduce.general")
+                a, x = self.fresh("a"), self.fresh("x")
+                self.scopes.append([(a, U_IS), (x, INT)])
+                self.in_fn.append(INT)
+                try:
+                    body = [["stm", ["return", ["expr", self.expr(INT, d + 2)]]]]
+                finally:
+                    self.scopes.pop()
+                    self.in_fn.pop()
+                src = self.iter_expr(d + 1) if r.random() < 0.5 else ["post", ["slice", self.expr(ARR_INT, d + 2), I(9), None, None], "~"]
+                return ["reduce", src, self.expr(STRING, d + 2), ["fn", [[a, U_IS], [x, INT]], INT, body]]
             return self.expr(INT if r.random() < 0.5 else STRING, d + 1)
         if t == U_IV:
             return self.expr(INT, d + 1) if r.random() < 0.6 else VOID
@@ -313,7 +333,7 @@ class Gen:
             return ["stm", ["if", self.expr(BOOL, d + 1), self.block(r.randrange(1, 3), d + 1), els]]
         if k < 0.6:
             self.stat("ifset")
-            n = self.fresh("u")
+            n = self.binder("u")
             self.scopes.append([(n, INT)])
             try:
                 body = self.block(1, d + 1)
@@ -360,7 +380,7 @@ class Gen:
         if k < 0.5:
             self.stat("match.type")
             scrut = self.expr(r.choice([U_IS, U_IV]), d + 1)
-            n1, n2 = self.fresh("m"), self.fresh("m")
+            n1, n2 = self.binder("m"), self.binder("m")
             arms = []
             self.scopes.append([(n1, INT)])
             arms.append(["atype", n1, "int", self.block(1, d + 1)])
@@ -394,7 +414,7 @@ class Gen:
         try:
             if k < 0.3:
                 self.stat("for")
-                n = self.fresh("x")
+                n = self.binder("x")
                 self.scopes.append([(n, INT)])
                 try:
                     body = self.block(r.randrange(1, 3), d + 1)
